@@ -43,6 +43,38 @@ Proof. exact port_eqb_spec. Qed.
 Theorem C16_node_as_wire_is_out0 : forall idx, out_port_of_node idx = (idx, 0, false).
 Proof. reflexivity. Qed.
 
+(* handles returned by builders know their count: for every operation shape whose outputs are determined
+   (guard shape_wf: counts are lengths and the instantiation handed to `call` is the substitution instance of
+   the polymorphic body), the count the builder writes on the handle is the number of value outputs of the
+   operation's signature; hence iteration and integer indexing on that handle are Python's on range(n) *)
+Theorem C16_builder_handles_know_count : forall s, shape_wf s = true ->
+  exists n, 0 <= n /\ value_outputs s = Some n /\ builder_count s = Some n.
+Proof. exact builder_count_spec. Qed.
+Theorem C16_builder_handle_iter : forall s, shape_wf s = true ->
+  exists n, value_outputs s = Some n /\ iter_node (builder_count s) = Ok (map Z.of_nat (seq 0 (Z.to_nat n))).
+Proof. exact builder_handle_iter. Qed.
+Theorem C16_builder_handle_index : forall s i, shape_wf s = true ->
+  exists n, value_outputs s = Some n /\ index_int (builder_count s) i = py_index n i.
+Proof. exact builder_handle_index. Qed.
+(* the instantiated output row: without row variables the arity of the body is kept; a row variable counts as
+   many outputs as its sequence argument holds (more or fewer than the body's row) *)
+Theorem C16_inst_len_no_rows : forall args row,
+  (forall it, In it row -> item_len args it = Some 1) -> inst_len args row = Some (Z.of_nat (length row)).
+Proof. exact inst_len_no_rows. Qed.
+Theorem C16_inst_len_app : forall args r1 r2,
+  inst_len args (r1 ++ r2) =
+  match inst_len args r1, inst_len args r2 with Some a, Some b => Some (a + b) | _, _ => None end.
+Proof. exact inst_len_app. Qed.
+Theorem C16_inst_len_row : forall args i len,
+  nth_error args i = Some (ASeq len) -> inst_len args [RRow i] = Some (Z.of_nat len).
+Proof. exact inst_len_row. Qed.
+(* non-vacuity: forall [R]. Bool,R -> R,Bool called with R := 3 types has 4 value outputs, with R := [] one *)
+Example C16_example_call :
+  shape_wf (SCall [RRow 0; RTy] [ASeq 3] 4) = true /\ value_outputs (SCall [RRow 0; RTy] [ASeq 3] 4) = Some 4 /\
+  shape_wf (SCall [RRow 0; RTy] [ASeq 0] 1) = true /\ value_outputs (SCall [RRow 0; RTy] [ASeq 0] 1) = Some 1 /\
+  shape_wf (SCall [RRow 0; RTy] [ASeq 3] 2) = false.
+Proof. repeat split; reflexivity. Qed.
+
 (* non-vacuity / sanity: a concrete slice with overflow and a negative bound *)
 Example C16_example : index_slice (Some 5) (Some (-2)) (Some 99) (Some 2) = Ok [3] /\
                       index_slice (Some 5) (Some (-6)) None None = Err IndexError.
@@ -53,3 +85,9 @@ Print Assumptions C16_int_index_python.
 Print Assumptions C16_slice_python.
 Print Assumptions C16_slice_members.
 Print Assumptions C16_tuple_index_python.
+Print Assumptions C16_builder_handles_know_count.
+Print Assumptions C16_builder_handle_iter.
+Print Assumptions C16_builder_handle_index.
+Print Assumptions C16_inst_len_no_rows.
+Print Assumptions C16_inst_len_app.
+Print Assumptions C16_inst_len_row.
